@@ -81,6 +81,9 @@ var c07Attacks = []C07Plan{
 	{Attack: "control-builder"},
 	{Attack: "wrong-nonce"}, {Attack: "replay-other-session"}, {Attack: "token-other-guid"}, {Attack: "dev2-over-dev1-session"},
 	{Attack: "unregistered-guid"},
+	// forged proofs while one call of the rendezvous server's state backend fails
+	{Attack: "forged-signer+fail:TO1ProofNonce", KeyRole: "att1"}, {Attack: "wrong-nonce+fail:TO1ProofNonce"}, {Attack: "replay-other-session+fail:TO1ProofNonce"},
+	{Attack: "forged-signer+fail:RVBlob", KeyRole: "att1"}, {Attack: "forged-signer+fail:InvalidateToken", KeyRole: "att1"}, {Attack: "dev2-over-dev1-session+fail:TO1ProofNonce"},
 	// the registered voucher names no device certificate (OVDevCertChain null):
 	// nobody can prove to be that device, whatever key signs
 	{Attack: "no-device-cert", KeyRole: "att1"}, {Attack: "no-device-cert", KeyRole: "dev1"},
@@ -492,6 +495,12 @@ func c07Run(env *Env, pl *C07Plan, collect map[int][]byte) {
 	}
 
 	// adversary-originated TO1 sessions
+	storeFault := ""
+	if a, m, ok := strings.Cut(pl.Attack, "+fail:"); ok {
+		cp := *pl
+		cp.Attack = a
+		pl, storeFault = &cp, m
+	}
 	mustReject := true
 	var body []byte
 	switch pl.Attack {
@@ -583,7 +592,16 @@ func c07Run(env *Env, pl *C07Plan, collect map[int][]byte) {
 		setupFail("unknown-attack", fmt.Errorf("%q", pl.Attack))
 		return
 	}
+	if rvn := s.Nodes["rv"]; storeFault != "" && rvn.Sim != nil {
+		rvn.Sim.FailNext[storeFault] = 1
+	}
 	rt, rb, _ := adv.Send(32, body)
+	if rvn := s.Nodes["rv"]; storeFault != "" && rvn.Sim != nil {
+		if rvn.Sim.FailNext[storeFault] == 0 {
+			o.Fault("store-error:" + storeFault)
+		}
+		rvn.Sim.FailNext[storeFault] = 0
+	}
 	o.Nontrivial = true
 	o.Sample = map[string]any{"attack": pl.Attack + ":" + pl.KeyRole, "response": rt}
 	switch {
